@@ -64,6 +64,15 @@ def answer : List String → String
         skipCycles := [], dbName := 0, halt := fun _ _ => false, conv := fun _ _ _ _ => false }
       showList (fun i => toString i.name) (active cfg h excl cycle)
     | _, _, _, _, _, _ => "bad-op"
+  | ["halts", cycle, stack, dfr, dc, halt] =>
+    match parseNat? cycle, parseStack? stack, parseNatList? dfr, parseNat? dc, parsePairs? halt with
+    | some cycle, some stack, some dfr, some dc, some halt =>
+      let cfg : Config := {
+        nCycles := 0, burnSteps := [], startCycle := 0, startNode := 0, stack := stack,
+        deferredNames := dfr, deferredCycle := dc, couplingOn := false, maxIters := 0,
+        skipCycles := [], dbName := 0, halt := fun i c => halt.contains (i, c), conv := fun _ _ _ _ => false }
+      showBool (haltsAt cfg cycle)
+    | _, _, _, _, _ => "bad-op"
   | ["npc", bs] => match parseNatList? bs with
     | some bs => showList toString (nodesPerCycle bs) | _ => "bad-op"
   | ["cumnode", bs, c, n] => match parseNatList? bs, parseNat? c, parseNat? n with
@@ -108,6 +117,28 @@ def answer : List String → String
     | some a, some b, some l => if a = 0 ∨ b = 0 then "reject" else
         showList showRat (stepLengthsDetailed a (.stepsAndLength b l)) ++ ";" ++ showRat (cycleLengthDetailed a (.stepsAndLength b l))
     | _, _, _ => "bad-op"
+  | ["expand", items] =>
+    let item? (t : String) : Option RItem :=
+      if t.endsWith "R" then (parseNat? (String.ofList t.toList.dropLast)).map RItem.rep else (parseRat? t).map RItem.val
+    match parseList? item? items with
+    | some l => (match expandRepeated l with | some r => showList showRat r | none => "reject")
+    | none => "bad-op"
+  | ["couple", cap, names, cmaxes, nums, tols, vbT, vaT] =>
+    -- `_performTightCoupling` over real TightCouplers: cap = the run setting; per coupler its name, OWN maxIters,
+    -- starting _numIters, tolerance; value tables (per coupler, per round) before / after each round
+    match parseNat? cap, parseNatList? names, parseNatList? cmaxes, parseNatList? nums, parseRatList? tols,
+      parseList? parseRatList? vbT, parseList? parseRatList? vaT with
+    | some cap, some names, some cmaxes, some nums, some tols, some vbT, some vaT =>
+      let n := names.length
+      if cmaxes.length != n || nums.length != n || tols.length != n || vbT.length != n || vaT.length != n then "bad-op"
+      else
+        let ks : List (Nat × Coupler) := (List.range n).map (fun i =>
+          (names.getD i 0, { tol := tols.getD i 0, maxIters := cmaxes.getD i 0, numIters := nums.getD i 0, prev := none }))
+        let tbl := fun (T : List (List Rat)) (nm it : Nat) => (T.getD (names.idxOf nm) []).getD it 0
+        match coupledLoopS (tbl vbT) (tbl vaT) cap 0 ks with
+        | none => "reject"
+        | some r => toString r.1 ++ " " ++ toString r.2.1 ++ " " ++ showList (fun p => toString p.2.numIters) r.2.2
+    | _, _, _, _, _, _, _ => "bad-op"
   | _ => "bad-op"
 
 def main : IO Unit := loop answer
